@@ -15,6 +15,8 @@
 (*          "truncated": the items yielded are a prefix of the written     *)
 (*                       ones (each exactly as written), then an error or  *)
 (*                       end of stream;                                    *)
+(*          "sync":      a block's sync marker differs: as "named", and the *)
+(*                       error is unrecoverable (only end of stream after); *)
 (*          "named":     (sync marker differs / declared size or count     *)
 (*                       disagrees with the contents / snappy CRC) an      *)
 (*                       error is reported, and before it only a prefix of *)
@@ -56,6 +58,14 @@ RunAllowed(e) ==
          [] e.damage = "truncated" ->
               /\ IsPrefixOfWritten(Items(rs), n)
               /\ \E i \in 1..Len(rs) : rs[i].r \in {"none", "err"}
+              \* premature end of input is an unrecoverable (I/O or framing) error: reported once, then end of stream
+              /\ \A i \in 1..Len(rs) : rs[i].r = "err" => \A j \in (i + 1)..Len(rs) : rs[j].r = "none"
+         [] e.damage = "sync" ->
+              \* a block's trailing sync marker differs from the header's: a framing error, reported once, then end of stream
+              LET k == FirstIdx(rs, "err") IN
+              /\ k > 0
+              /\ IsPrefixOfWritten(Items(SubSeq(rs, 1, k - 1)), n)
+              /\ \A j \in (k + 1)..Len(rs) : rs[j].r = "none"
          [] e.damage = "named" ->
               LET k == FirstIdx(rs, "err") IN
               /\ k > 0
